@@ -2801,3 +2801,175 @@ def c17_idle_timeout_plumbing(env):
 
 
 REGISTRY.setdefault("C17", []).append(c17_idle_timeout_plumbing)
+
+
+# ---- C12 / C17: what a heartbeat tick does in each connection state -------------------------------
+
+
+def _heartbeat_tick(env, prop):
+    o = Obligation(f"{prop.lower()}_heartbeat_tick", prop)
+    o.desc = "ConnectionEngine::on_heartbeat (run at every tick of the timer armed with the peer's idle-time-out): while the connection is OPENED every tick writes exactly one empty frame and keeps the engine running -- whatever else was sent since the last tick (C17: no idle-time-out interval without a frame); once our close is on the wire (CLOSE_SENT, END) a tick writes nothing (C12: nothing after the close)"
+    fn = env.fn(r"^connection::engine::<impl at [^>]*>::on_heartbeat::\{closure#0\}$")
+    o.functions = [fn.name]
+    o.bounds = ["coroutine body from its initial state through one poll; every connection state; the send future ready (ok / error) or pending; every other field of the engine unconstrained (a flag the tick might consult may hold any value)"]
+    o.assumes = ["the timer ticks once per period (tokio::time::interval contract); Transport::send writes the frame it is given (C06)"]
+    CS = env.enums["ConnectionState"]
+    RUN = env.enums["Running"]
+    ex = env.executor(max_visits=3)
+    state_d = z3.BitVec("connection.local_state", 64)
+
+    def state_model(ex_, st, callee, args, argvals, dty):
+        stt = st.locals.setdefault("@connstate", mir.Agg("ConnectionState"))
+        if "#d" not in stt:
+            stt["#d"] = state_d
+        return mir.Ref(("@connstate",), False)
+
+    def empty_model(ex_, st, callee, args, argvals, dty):
+        f = mir.Agg("Frame::empty")
+        f["@empty"] = True
+        return f
+
+    ex.models = [(r"Connection>::local_state$", state_model), (r"amqp::Frame::empty$", empty_model)]
+    pin, cor = coroutine_start(env, "@engine", {})
+    paths = ex.run(fn, {"_1": pin, "@cor": cor, "@engine": mir.Agg("engine")})
+    hyp = ex.assumptions + [state_valid(env, state_d, "ConnectionState")]
+
+    def replay(m):
+        if prop == "C12":
+            return "hb_after_close", (lambda js: js.get("panic") or js["frames_after_close"] != 0)
+        return "hb_gap", (lambda js: js.get("panic") or js["max_gap_ms"] > js["idle_ms"] + js["tolerance_ms"])
+
+    sends = r"SinkExt<amqp::Frame>>::(send|feed|send_all)$|Sink<amqp::Frame>>::start_send$"
+    n_open = 0
+    for i, p in enumerate(paths):
+        if p.end != "return":
+            continue
+        H = hyp + p.cond
+        sent = [c for c in p.calls if re.search(sends, c[0])]
+        if prop == "C17":
+            o.prove(f"path{i}:a-tick-while-opened-writes-a-frame", H + [state_d == CS["Opened"]], z3.BoolVal(len(sent) == 1), replay=replay)
+            if len(sent) == 1:
+                a = sent[0][1][1] if len(sent[0][1]) > 1 else None
+                o.prove(f"path{i}:the-frame-is-the-empty-frame", H + [state_d == CS["Opened"]], z3.BoolVal(isinstance(a, mir.Agg) and a.get("@empty") is True), replay=replay)
+            rdy, is_ok = poll_ready_result(p.ret)
+            if is_ok is not None:
+                run = p.ret[("as", "Ready")][0].get(("as", "Ok"))
+                rd = run[0].get("#d") if isinstance(run, mir.Agg) and isinstance(run.get(0), mir.Agg) else None
+                if rd is not None:
+                    o.prove(f"path{i}:a-successful-tick-keeps-the-engine-running", H + [state_d == CS["Opened"], rdy, is_ok], rd == RUN["Continue"], replay=replay)
+            s = z3.Solver()
+            s.add(*(H + [state_d == CS["Opened"]]))
+            if s.check() == z3.sat:
+                n_open += 1
+        else:
+            o.prove(f"path{i}:no-frame-after-our-close", H + [z3.Or(state_d == CS["CloseSent"], state_d == CS["End"])], z3.BoolVal(len(sent) == 0), replay=replay)
+            s = z3.Solver()
+            s.add(*(H + [z3.Or(state_d == CS["CloseSent"], state_d == CS["End"])]))
+            if s.check() == z3.sat:
+                n_open += 1
+    o.cover("paths for the states in question", [z3.BoolVal(n_open > 0)])
+    return [o]
+
+
+def c12_heartbeat_tick(env):
+    return _heartbeat_tick(env, "C12")
+
+
+def c17_heartbeat_tick(env):
+    return _heartbeat_tick(env, "C17")
+
+
+REGISTRY.setdefault("C12", []).append(c12_heartbeat_tick)
+REGISTRY.setdefault("C17", []).append(c17_heartbeat_tick)
+
+
+# ---- C13: a peer's closing detach is answered in kind, also when it answers our non-closing detach --
+
+
+def c13_detach_answered_in_kind(env):
+    o = Obligation("c13_detach_answers_a_closing_detach_in_kind", "C13")
+    o.desc = "LinkEndpointInnerDetach::detach_with_error (Sender::detach / Receiver::detach): whenever the peer's detach that arrives while we are detaching has closed=true -- with or without an error, whatever else it carries -- the link re-attaches and closes (reattach_and_then_close) and the caller gets an error; the peer's detach is handed to the plain on_incoming_detach only when closed=false"
+    fn = env.fn(r"^shared_inner::<impl at [^>]*>::detach_with_error::\{closure#0\}$")
+    o.functions = [fn.name]
+    o.bounds = ["coroutine body from its initial state through one poll in which every inner future may be ready (ok / error) or pending; every link state; closed and error of the peer's detach symbolic"]
+    o.assumes = ["reattach_and_then_close sends the attach and the closing detach (its own frames are C13's send_detach obligations)"]
+    ex = env.executor(max_visits=2)
+    ex.max_paths = 3000
+    f_closed = env.fidx("Detach", "closed")
+    f_error = env.fidx("Detach", "error")
+    seen = []
+
+    def m_poll(ex_, st, callee, args, argvals, dty):
+        k = len(seen)
+        closed = z3.Bool(f"remote_detach#{k}.closed")
+        err_d = z3.BitVec(f"remote_detach#{k}.error.is_some", 64)
+        pd = z3.BitVec(f"recv_remote_detach#{k}.poll", 64)
+        rd = z3.BitVec(f"recv_remote_detach#{k}.is_err", 64)
+        det = mir.Agg("Detach")
+        det[f_closed] = closed
+        e = mir.Agg("error")
+        e["#d"] = err_d
+        det[f_error] = e
+        res = mir.Agg("Result")
+        res["#d"] = rd
+        okv = mir.Agg("Ok")
+        okv[0] = det
+        res[("as", "Ok")] = okv
+        poll = mir.Agg("Poll")
+        poll["#d"] = pd
+        rv = mir.Agg("Ready")
+        rv[0] = res
+        poll[("as", "Ready")] = rv
+        ex_.assumptions += [z3.ULE(pd, 1), z3.ULE(rd, 1), z3.ULE(err_d, 1)]
+        seen.append((closed, err_d, pd, rd, det))
+        return poll
+
+    LS = env.enums["LinkState"]
+    state_d = z3.BitVec("link.local_state", 64)
+
+    def m_state(ex_, st, callee, args, argvals, dty):
+        stt = st.locals.setdefault("@linkstate", mir.Agg("LinkState"))
+        if "#d" not in stt:
+            stt["#d"] = state_d
+        return mir.Ref(("@linkstate",), False)
+
+    ex.models = [(r"recv_remote_detach<.*>\(\)\} as (futures_util::|std::future::)?Future>::poll$", m_poll), (r"::local_state$", m_state)]
+    pin, cor = coroutine_start(env, "@self", {})
+    paths = ex.run(fn, {"_1": pin, "@cor": cor, "@self": mir.Agg("link_endpoint")})
+    hyp = ex.assumptions + [state_valid(env, state_d, "LinkState")]
+
+    def replay(m):
+        cmds = ["scn detach_kind 0", "scn detach_kind 1"]
+        return cmds, (lambda outs: any(js.get("panic") or not js["answered_in_kind"] or js["client"] != "detach_err" for js in outs))
+
+    n = 0
+    for i, p in enumerate(paths):
+        if p.end != "return":
+            continue
+        polls = [c for c in p.calls if re.search(r"recv_remote_detach<.*>\(\)\} as (futures_util::|std::future::)?Future>::poll$", c[0])]
+        if not polls:
+            continue
+        r = polls[-1][3]
+        k = [j for j, sn in enumerate(seen) if r[("as", "Ready")][0][("as", "Ok")][0] is sn[4] or (isinstance(r, mir.Agg) and r.get("#d") is sn[2])]
+        if not k:
+            continue
+        closed, err_d, pd, rd, _ = seen[k[0]]
+        H = hyp + p.cond + [pd == 0, rd == 0]
+        s = z3.Solver()
+        s.add(*H)
+        if s.check() != z3.sat:
+            continue
+        n += 1
+        n_re = count_calls(p, r"^(\w+::)*reattach_and_then_close::<")
+        n_in = count_calls(p, r"::on_incoming_detach$")
+        o.prove(f"path{i}:a-closing-detach-makes-the-link-reattach-and-close", H + [closed], z3.BoolVal(n_re == 1 and n_in == 0), replay=replay)
+        # (in CLOSE_SENT -- we asked to close -- the link is closed whatever the peer answers)
+        o.prove(f"path{i}:a-non-closing-detach-is-completed-as-a-detach", H + [z3.Not(closed), state_d != LS["CloseSent"]], z3.BoolVal(n_re == 0 and n_in == 1), replay=replay)
+        rdy, is_ok = poll_ready_result(p.ret)
+        if is_ok is not None:
+            o.prove(f"path{i}:a-closing-detach-is-reported-to-the-caller", H + [closed, rdy], z3.Not(is_ok), replay=replay)
+    o.cover("paths on which the peer's detach arrives", [z3.BoolVal(n > 0)])
+    return [o]
+
+
+REGISTRY.setdefault("C13", []).append(c13_detach_answered_in_kind)
